@@ -37,6 +37,8 @@ def main():
             tier = sys.argv[i + 1]
     skip_demo = "--skip-demo" in sys.argv
     src = "/tmp/sw/%s/out/%s" % (pid.upper(), mn)
+    if mn.startswith("d"):  # fourth round
+        src = "/tmp/sw/%sd/out/m%s" % (pid.upper() if 'upper' in dir(pid) else pid, mn[1:])
     if mn.startswith("c"):  # third round
         src = "/tmp/sw/%sc/out/m%s" % (pid.upper() if 'upper' in dir(pid) else pid, mn[1:])
     if mn.startswith("b"):  # second round: /tmp/sw/<PID>b/out/m<k> is kept as <PID>_b<k>
